@@ -68,6 +68,25 @@ func VerifC02Unmarshall() {
 		rawBytes, _ := (&treechangeproto.RawTreeChange{Payload: payload, Signature: sig}).MarshalVT()
 		raw = &treechangeproto.RawTreeChangeWithId{RawChange: rawBytes, Id: []string{"c1", "c2"}[rt.Choose(2)]}
 	}
+	// the builder is reused across calls: a previous call must leave nothing behind that the
+	// next raw change could borrow (a field absent from its own bytes)
+	prior := rt.Choose(3)
+	if prior > 0 && !isRoot {
+		pp, _ := (&treechangeproto.TreeChange{TreeHeadIds: []string{"rootid"}, AclHeadId: "acl0", SnapshotBaseId: "rootid", Identity: []byte("w1")}).MarshalVT()
+		prb, _ := (&treechangeproto.RawTreeChange{Payload: pp, Signature: []byte("ps")}).MarshalVT()
+		_, _ = cb.Unmarshall(&treechangeproto.RawTreeChangeWithId{RawChange: prb, Id: "c0"}, true)
+		// this raw change omits one of its two fields on the wire
+		var rb []byte
+		if prior == 1 {
+			payload = nil
+			rb, _ = (&treechangeproto.RawTreeChange{Signature: sig}).MarshalVT()
+		} else {
+			sig = nil
+			rb, _ = (&treechangeproto.RawTreeChange{Payload: payload}).MarshalVT()
+		}
+		raw = &treechangeproto.RawTreeChangeWithId{RawChange: rb, Id: raw.Id}
+		rt.Reach("reused-builder")
+	}
 	ch, err := cb.Unmarshall(raw, true)
 	if err != nil {
 		rt.Reach("rejected")
